@@ -469,3 +469,48 @@ def dictionary_ids_are_consecutive(ctx):
     return [("every_store_is_followed_by_one_increment", [], z3.BoolVal(paired and n_stores == n_incs and n_stores > 0), f"{n_stores} stores, {n_incs} increments {txt}"),
             ("ids_are_the_running_size", [], z3.BoolVal(ids_ok and prop_ok), f"id expressions are the running size {txt}"),
             ("size_is_written_nowhere_else", [], z3.BoolVal(not other_writes), f"other writes at lines {other_writes}")]
+
+
+@lemma("split_cut_note_fields", ["C08"])
+def split_cut_note_fields(ctx):
+    """Where `RelativeSequence.split` cuts the sounding notes at a boundary (the loop over `open_messages.items()`), on the real constructor
+    calls (read on every run, keyword expressions evaluated symbolically for an arbitrary open note `value` and an arbitrary current message
+    `msg`): the closing NOTE_OFF carries the open note's channel and pitch, and the re-struck NOTE_ON carries its channel, pitch and velocity."""
+    import ast as _ast
+    from pyvc.engine import Exec, State, mk_heap
+    from pyvc.values import Num, Ref
+    fn, _ = ctx.sources.find("RelativeSequence.split")
+    loop = None
+    for n in _ast.walk(fn):
+        if isinstance(n, _ast.For) and "open_messages.items()" in _ast.unparse(n.iter):
+            loop = n
+    if loop is None or not (isinstance(loop.target, _ast.Tuple) and len(loop.target.elts) == 2 and isinstance(loop.target.elts[1], _ast.Name)):
+        raise KeyError("split: loop over the open notes not found")
+    vname = loop.target.elts[1].id
+    calls = {}
+    for n in _ast.walk(loop):
+        if isinstance(n, _ast.Call) and isinstance(n.func, _ast.Name) and n.func.id == "Message":
+            kw = {k.arg: k.value for k in n.keywords}
+            mt = _ast.unparse(kw.get("message_type", _ast.Constant(value="")))
+            for kind in ("NOTE_OFF", "NOTE_ON"):
+                if mt.endswith(kind):
+                    calls[kind] = kw
+    if set(calls) != {"NOTE_OFF", "NOTE_ON"}:
+        raise KeyError(f"split: closing / re-opening messages not found ({sorted(calls)})")
+    X = Exec(ctx, "lemma", None, silent=True)
+    st = State({}, mk_heap(ctx), [], {})
+    value, msg = Ref(z3.Int("open_note"), "Message"), Ref(z3.Int("current_msg"), "Message")
+    st.env = {vname: value, "msg": msg}
+    for k_, v_ in ctx.globals.items():
+        st.env.setdefault(k_, v_)
+    hyp = [value.v != msg.v]
+    goals = []
+    for kind, fields in (("NOTE_OFF", ("channel", "note")), ("NOTE_ON", ("channel", "note", "velocity"))):
+        for f_ in fields:
+            if f_ not in calls[kind]:
+                goals.append((f"{kind.lower()}_{f_}", hyp, z3.BoolVal(False), f"{kind}: keyword {f_} missing"))
+                continue
+            got = X.ev(calls[kind][f_], st)
+            want = X.read_field(st, value, f_)
+            goals.append((f"{kind.lower()}_{f_}", hyp + list(st.pc), X.eq(got, want, st), f"{kind}({f_}=`{_ast.unparse(calls[kind][f_])}`) is the open note's {f_}"))
+    return goals
